@@ -293,7 +293,13 @@ func (s *Session) Run(ctx context.Context, dir string, args ...string) error {
 									if err != nil {
 										return err
 									}
-									bss = []match.Bindings{exe.Bs}
+									if exe == nil || exe.Bs == nil {
+										// The guard rejected
+										// this message.
+										bss = nil
+									} else {
+										bss = []match.Bindings{exe.Bs}
+									}
 								}
 							}
 							if bss != nil {
